@@ -160,3 +160,57 @@ class SharedModels(V3Sig):
         self.sid = sid
         self.meta = {"api_version": "3.0", "type": typ, "models": SHARED_MODELS}
         return self.meta
+
+
+# ---------------------------------------------------------------------------------------------------------
+# C14 class 'plain_inprocess': an ordinary mosaik_api_v3.Simulator whose methods are plain functions (NOT
+# generator functions like ScriptedSim's), failing at a chosen request with a chosen exception class.
+import mosaik_api_v3 as _api
+
+PLAIN_LOG: List[tuple] = []
+
+
+class PlainSim(_api.Simulator):
+    def __init__(self):
+        super().__init__({"api_version": "3.0", "type": "hybrid",
+                          "models": {"M": {"public": True, "params": [], "attrs": ["o", "i"], "trigger": ["i"],
+                                           "non-persistent": ["o"]}}})
+        self.nreq = 0
+        self.fail_at = None
+        self.exc = None
+
+    def init(self, sid, time_resolution=1.0, fail_at=None, exc=None, typ="hybrid"):
+        self.sid = sid
+        self.fail_at, self.exc = fail_at, exc
+        self.meta["type"] = typ
+        if typ == "time-based":
+            self.meta["models"]["M"] = {"public": True, "params": [], "attrs": ["o", "i"]}
+        return self.meta
+
+    def _req(self, kind):
+        n = self.nreq
+        self.nreq += 1
+        PLAIN_LOG.append((self.sid, kind, n))
+        if self.fail_at == n:
+            import asyncio
+            import builtins
+            cls = {"CancelledError": asyncio.CancelledError}.get(self.exc) or getattr(builtins, self.exc)
+            PLAIN_LOG.append((self.sid, "fault", self.exc))
+            raise cls(f"injected failure in {self.sid}.{kind}")
+
+    def create(self, num, model, **p):
+        return [{"eid": f"e{i}", "type": model} for i in range(num)]
+
+    def setup_done(self):
+        self._req("setup_done")
+
+    def step(self, time, inputs, max_advance):
+        self._req("step")
+        return time + 1
+
+    def get_data(self, outputs):
+        self._req("get_data")
+        return {eid: {a: f"{self.sid}@{self.nreq}" for a in attrs} for eid, attrs in outputs.items()}
+
+    def finalize(self):
+        PLAIN_LOG.append((self.sid, "finalize", None))
